@@ -114,6 +114,8 @@ pub struct Ctl {
     plan: Plan,
     state: Mutex<CtlState>,
     serialize: bool,
+    /// Optional perturbation of task timing (C17): one byte per operation, cycled.
+    perturb: Vec<u8>,
 }
 
 impl Ctl {
@@ -129,6 +131,25 @@ impl Ctl {
                 triggered: false,
             }),
             serialize: true,
+            perturb: vec![],
+        })
+    }
+
+    /// Like `new`, but operations are not serialized (conserve's own concurrent tasks really
+    /// overlap) and each operation is preceded by a yield/sleep chosen by `perturb`.
+    pub fn new_unserialized(root: &Path, plan: Plan, perturb: Vec<u8>) -> Arc<Ctl> {
+        Arc::new(Ctl {
+            root: root.to_path_buf(),
+            plan,
+            state: Mutex::new(CtlState {
+                log: vec![],
+                occ: HashMap::new(),
+                mutating_seen: 0,
+                frozen: false,
+                triggered: false,
+            }),
+            serialize: false,
+            perturb,
         })
     }
 
@@ -158,6 +179,15 @@ impl Ctl {
 impl Interceptor for Ctl {
     fn before(&self, call: &Call<'_>) -> Action {
         let verb = V::from(call.verb);
+        if !self.perturb.is_empty() {
+            let i = self.state.lock().unwrap().log.len();
+            match self.perturb[i % self.perturb.len()] % 4 {
+                0 => {}
+                1 => std::thread::yield_now(),
+                2 => std::thread::sleep(std::time::Duration::from_micros(30)),
+                _ => std::thread::sleep(std::time::Duration::from_micros(200)),
+            }
+        }
         let pre = self.pre_state(&call.path);
         let mut st = self.state.lock().unwrap();
         let occ = {
